@@ -253,6 +253,59 @@ def matrix3Mul (argIsScalar : Bool) (r x : Opd) : Option (Shape × Mask) :=
       else some (out, xm)
   else run (.ctorOr false) [r, x] (.all false)
 
+/-! ### in-place operators `+= -= *= /= //= %=` (qube.py `__iadd__` … `__imod__`)
+
+They update `self`: the operand must broadcast INTO the target (`_require_broadcast_into`,
+ValueError otherwise), the values are updated in place and the operand's mask is merged with
+`_merge_mask_`; the matrix forms compute the out-of-place product and commit it with
+`_set_values_(values, mask)`. -/
+
+/-- `_merge_mask_` (qube.py:1189-1204): `Qube.or_(self._mask_, mask)`, then an array of another
+    shape is broadcast to the target's shape and copied -/
+def mergeMask (a : Opd) (m : Mask) : Option Mask :=
+  (or_ false a.mask m).bind fun r =>
+    match r with
+    | .all b => some (.all b)
+    | .arr x =>
+      if x.shape = a.shape then some (.arr x)
+      else if bcast x.shape a.shape = some a.shape then some (.arr (x.bto a.shape))
+      else none
+
+inductive InPlace where
+  /-- a Python number (non-zero for the divisions): values updated, mask untouched -/
+  | number
+  /-- `+= -= *=` with a Qube operand: `_merge_mask_(arg._mask_)` -/
+  | merge
+  /-- `/=`: `self.__imul__(arg.reciprocal())` — the guarded reciprocal, then merge -/
+  | divMerge
+  /-- `//= %=`: `divisor = arg.mask_where_eq(0, 1)`, then `_merge_mask_(divisor._mask_)` -/
+  | pipeMerge
+  /-- matrix `*=`: `Qube.dot` then `_set_values_(result._values_, result._mask_)` -/
+  | matmul
+  /-- matrix `/=`: the inverse of the right operand, then the matrix `*=` -/
+  | matdiv
+
+/-- `_require_broadcast_into` -/
+def into (a b : Opd) : Bool := bcast a.shape b.shape == some a.shape
+
+def runInPlace (k : InPlace) (a b : Opd) (fail : Mask) : Option (Shape × Mask) :=
+  match k with
+  | .number => some (a.shape, a.mask)
+  | .merge => if into a b then (mergeMask a b.mask).map fun m => (a.shape, m) else none
+  | .divMerge =>
+    (run .guard [b] fail).bind fun r =>
+      if into a b then (mergeMask a r.2).map fun m => (a.shape, m) else none
+  | .pipeMerge =>
+    (maskWhere b fail true).bind fun bm =>
+      if into a b then (mergeMask a bm).map fun m => (a.shape, m) else none
+  | .matmul =>
+    (run (.ctorOr false) [a, b] (.all false)).bind fun r =>
+      if r.1 = a.shape then some r else none          -- `_set_values_`: shapes must match
+  | .matdiv =>
+    (run .matInverse [b] fail).bind fun rb =>
+      (run (.ctorOr false) [a, ⟨rb.1, rb.2⟩] (.all false)).bind fun r =>
+        if r.1 = a.shape then some r else none
+
 /-- the shape on which the code computes the failure set of a path, and the result shape -/
 def Path.shapes (p : Path) (ops : List Opd) : Option (Shape × Shape) :=
   match p, ops with
